@@ -12,7 +12,7 @@
     rerunner.go:262-289 Cache              OCache: CacheGet (hit -> FCacheLink; miss -> FChildBegin ... FCacheSet, FCacheLink)
     rerunner.go:356-439 Rerunner.run       FRunWait, FRunLock, FCleanStart.., FBegin, FRunEnd (publish), FArm, FUnlock
     rerunner.go:441-452 Stop               FStop false (cancelCtx), FStop true (the r.mu section)
-    util.go:10-15       InvalidateAfter    OTimer: TimerNew (NewResource+Cleanup), FTimerAdd (AddDependency), LTimer (fires)
+    util.go:10-15       InvalidateAfter    OTimer: TimerNew (NewResource+AfterFunc), FTimerReg (Cleanup), FTimerAdd (AddDependency), LTimer (fires)
 
     Not modelled: the per-key ctxMutex of Cache (compute scripts are sequential, so it is never contended; the
     ctx-cancelled error return is modelled as the [arg = 1] branch of CacheGet), flushCh / RerunImmediately,
@@ -47,6 +47,7 @@ Inductive frame :=
 | FScript (r c : nat) (p : list op)        (* compute function of computation c, remaining ops *)
 | FDepAdd (c slot res : nat)
 | FDepRead (c slot : nat)
+| FTimerReg (c res : nat)                  (* InvalidateAfter: r.Cleanup(timer.Stop) *)
 | FTimerAdd (c res : nat)
 | FChildBegin (r key : nat) (p : list op) (parent : nat)
 | FCacheSet (r key child parent : nat)
@@ -259,8 +260,8 @@ Definition step_top (s : state) (f : frame) (rest : list frame) (arg : nat) : re
       | ODep sl :: q => Some (s, FDepAdd c sl (slot_res s sl) :: FScript r c q :: rest, [])
       | OTimer :: q =>
           if Nat.eqb arg 0 then Some (s, FScript r c q :: rest, [])
-          else let '(s1, k) := alloc s (new_res HTimer 1) in
-               Some (s1, FTimerAdd c k :: FScript r c q :: rest, [])
+          else let '(s1, k) := alloc s new_timer in
+               Some (s1, FTimerReg c k :: FScript r c q :: rest, [])
       | OCache key body :: q =>
           if Nat.eqb arg 0 then
             match cache_get (r_cache (getr s r)) key with
@@ -279,6 +280,8 @@ Definition step_top (s : state) (f : frame) (rest : list frame) (arg : nat) : re
       let '(s1, sp) := do_add_out s n c in Some (s1, FDepRead c sl :: rest, sp)
   | FDepRead c sl =>
       Some (upd_node s c (add_val (getN s c) [(sl, slot_ver s sl)]), rest, [])
+  | FTimerReg c n =>
+      Some (with_nodes s (fst (g_handle_rel (s_nodes s) n HTimer)), FTimerAdd c n :: rest, [])
   | FTimerAdd c n =>
       let '(s1, sp) := do_add_out s n c in Some (s1, rest, sp)
   | FChildBegin r key body parent =>
